@@ -212,3 +212,29 @@ class ConnSend(Contract):
         out0, out = old.get(sock, "out").e, st.get(sock, "out").e
         return [("sent-is-prefix", z3.And(z3.PrefixOf(out0, out), z3.PrefixOf(out, z3.Concat(out0, a["data"].e)))),
                 ("inbound-untouched", st.get(sock, "pos").e == old.get(sock, "pos").e)]
+
+
+@R.lemma("C17:retry-delays-never-end", props=("C17",))
+def retry_delays_never_end(E):
+    """receive_data / send_data draw their back-off delays with next(delays) inside the retry handlers: the generator __retrydelays must never be exhausted, or a bare
+    StopIteration escapes instead of the bytes / ConnectionClosedError / TimeoutError (the contracts of receive_data / send_data ASSUME `next(delays)` yields a value).
+    Syntactic sufficient condition, checked on the AST of the current tree: the function's last statement is `while True:` (a constant-true test) whose body contains a
+    `yield` and no `break` / `return` / `raise`, and no `return` / `raise` occurs before it - so the generator can only be left through a yield."""
+    import ast
+    from pyvc.engine import Module, State
+    mod = Module.load("Pyro5.socketutil")
+    fn = mod.funcs.get("__retrydelays")
+    st = State()
+    E.oblige(st, "the retry-delay generator __retrydelays still exists", z3.BoolVal(fn is not None), kind="lemma")
+    if fn is None:
+        return
+    body = [s for s in fn.body if not (isinstance(s, ast.Expr) and isinstance(s.value, ast.Constant))]
+    last = body[-1] if body else None
+    endless = isinstance(last, ast.While) and isinstance(last.test, ast.Constant) and last.test.value is True and not last.orelse
+    inner = list(ast.walk(last)) if endless else []
+    ok_inner = endless and any(isinstance(n, (ast.Yield, ast.YieldFrom)) for n in inner) and not any(isinstance(n, (ast.Break, ast.Return, ast.Raise)) for n in inner)
+    early = [n for s in body[:-1] for n in ast.walk(s) if isinstance(n, (ast.Return, ast.Raise))]
+    E.oblige(st, "the retry-delay generator never ends: it closes with `while True:` around a yield, without break / return / raise (an exhausted generator would let "
+                 "StopIteration escape from receive_data / send_data on the next retryable error)", z3.BoolVal(bool(ok_inner) and not early), kind="lemma")
+    users = [q for q in ("receive_data", "send_data") if q in mod.funcs and any(isinstance(n, ast.Name) and n.id == "__retrydelays" for n in ast.walk(mod.funcs[q]))]
+    E.oblige(st, "receive_data and send_data take their delays from that generator", z3.BoolVal(len(users) == 2), kind="lemma")
